@@ -72,6 +72,60 @@ def _eval_with(prog, e, env, asg, depth=0):
     return None
 
 
+def delegation_rule(chk, prog, roles):
+    lib = prog.lib_functions()
+    loader = _loader(prog)
+    ce = ConstEval(prog)
+    # ---- DELEG: the wrappers call the matching string entry on the loaded text and return its result --------
+    pairs = []
+    for fn, f in sorted(lib.items()):
+        if not any(x.get("kind") == "CallExpr" and callee_name(x) == loader for x in walk(prog.body(f))):
+            continue
+        ps = [p["name"] for p in prog.params(f)]
+        counting = "int *" in [qtype(p) for p in prog.params(f)]
+        want = [e for e in roles.direct_entries if ("int *" in [qtype(p) for p in prog.params(prog.fn(e))]) == counting]
+        calls = [x for x in walk(prog.body(f)) if x.get("kind") == "CallExpr" and callee_name(x) in roles.direct_entries]
+        key = "DELEG/%s" % fn
+        if len(calls) != 1 or callee_name(calls[0]) not in want:
+            chk.bad("DELEG", key, loc_str(f), "%s delegates to the %s string entry point" % (fn, "counting" if counting else "plain"),
+                    "calls %s" % [callee_name(x) for x in calls])
+            continue
+        call = calls[0]
+        pairs.append((fn, callee_name(call)))
+        a = call_args(call)
+        # same instance, the loaded text, and (for counting) the caller's chunk size and result pointer
+        txtvar = None
+        for m in walk(prog.body(f)):
+            if m.get("kind") == "VarDecl" and kids(m) and strip(kids(m)[-1], casts=True).get("kind") == "CallExpr" and \
+                    callee_name(strip(kids(m)[-1], casts=True)) == loader:
+                txtvar = m["name"]
+        passed = [expr_str(strip(x, casts=True)) for x in a]
+        expect = [ps[0], txtvar] + [p for p in ps[2:]]
+        chk.require(passed == expect, "DELEG", key + "/args", loc_str(call),
+                    "%s passes its instance, the loaded text and its remaining arguments unchanged" % fn, "passes %s, expected %s" % (passed, expect))
+        # the delegate's result is what the wrapper returns on its last return
+        resvar = None
+        for m, parents in walk_with_parents(prog.body(f)):
+            if m is call:
+                for p in reversed(parents):
+                    if p.get("kind") == "VarDecl":
+                        resvar = p["name"]
+                        break
+                    if p.get("kind") == "ReturnStmt":
+                        resvar = "<direct>"
+                        break
+        rets = [m for m in walk(prog.body(f)) if m.get("kind") == "ReturnStmt" and kids(m)]
+        last = rets[-1] if rets else None
+        okr = resvar == "<direct>" or (last is not None and ref_name(strip(kids(last)[0], casts=True)) == resvar)
+        others = [r for r in rets if r is not last and ce.try_eval(strip(kids(r)[0], casts=True)) in (0,)]
+        chk.require(okr and not others, "DELEG", key + "/result", loc_str(last) if last else loc_str(f),
+                    "%s returns the result of the string entry point (and never EXIT_SUCCESS on its own)" % fn,
+                    "returns %s" % (expr_str(kids(last)[0]) if last else "nothing"))
+    chk.floor("file wrappers", len(pairs), 2)
+    chk.analysed["delegation"] = pairs
+    return pairs
+
+
 def run(chk, prog, tier):
     roles = PL.Roles(prog)
     lib = prog.lib_functions()
@@ -125,53 +179,7 @@ def run(chk, prog, tier):
         cnt = strip(a[2], casts=True)
         ok = cnt.get("kind") == "BinaryOperator" and cnt.get("opcode") == "-"
         chk.require(ok, "CSTR", "CSTR/read-bound", loc_str(r), "each read() asks for at most the bytes still missing (file size minus bytes done)", expr_str(cnt))
-    # ---- DELEG: the wrappers call the matching string entry on the loaded text and return its result --------
-    pairs = []
-    for fn, f in sorted(lib.items()):
-        if not any(x.get("kind") == "CallExpr" and callee_name(x) == loader for x in walk(prog.body(f))):
-            continue
-        ps = [p["name"] for p in prog.params(f)]
-        counting = "int *" in [qtype(p) for p in prog.params(f)]
-        want = [e for e in roles.direct_entries if ("int *" in [qtype(p) for p in prog.params(prog.fn(e))]) == counting]
-        calls = [x for x in walk(prog.body(f)) if x.get("kind") == "CallExpr" and callee_name(x) in roles.direct_entries]
-        key = "DELEG/%s" % fn
-        if len(calls) != 1 or callee_name(calls[0]) not in want:
-            chk.bad("DELEG", key, loc_str(f), "%s delegates to the %s string entry point" % (fn, "counting" if counting else "plain"),
-                    "calls %s" % [callee_name(x) for x in calls])
-            continue
-        call = calls[0]
-        pairs.append((fn, callee_name(call)))
-        a = call_args(call)
-        # same instance, the loaded text, and (for counting) the caller's chunk size and result pointer
-        txtvar = None
-        for m in walk(prog.body(f)):
-            if m.get("kind") == "VarDecl" and kids(m) and strip(kids(m)[-1], casts=True).get("kind") == "CallExpr" and \
-                    callee_name(strip(kids(m)[-1], casts=True)) == loader:
-                txtvar = m["name"]
-        passed = [expr_str(strip(x, casts=True)) for x in a]
-        expect = [ps[0], txtvar] + [p for p in ps[2:]]
-        chk.require(passed == expect, "DELEG", key + "/args", loc_str(call),
-                    "%s passes its instance, the loaded text and its remaining arguments unchanged" % fn, "passes %s, expected %s" % (passed, expect))
-        # the delegate's result is what the wrapper returns on its last return
-        resvar = None
-        for m, parents in walk_with_parents(prog.body(f)):
-            if m is call:
-                for p in reversed(parents):
-                    if p.get("kind") == "VarDecl":
-                        resvar = p["name"]
-                        break
-                    if p.get("kind") == "ReturnStmt":
-                        resvar = "<direct>"
-                        break
-        rets = [m for m in walk(prog.body(f)) if m.get("kind") == "ReturnStmt" and kids(m)]
-        last = rets[-1] if rets else None
-        okr = resvar == "<direct>" or (last is not None and ref_name(strip(kids(last)[0], casts=True)) == resvar)
-        others = [r for r in rets if r is not last and ce.try_eval(strip(kids(r)[0], casts=True)) in (0,)]
-        chk.require(okr and not others, "DELEG", key + "/result", loc_str(last) if last else loc_str(f),
-                    "%s returns the result of the string entry point (and never EXIT_SUCCESS on its own)" % fn,
-                    "returns %s" % (expr_str(kids(last)[0]) if last else "nothing"))
-    chk.floor("file wrappers", len(pairs), 2)
-    chk.analysed["delegation"] = pairs
+    pairs = delegation_rule(chk, prog, roles)
     # ---- failure returns of loader and wrappers (ERR) ----------------------------------------------------------
     from checks import C17
     kinds = dict(ERR.OS_FAIL)
